@@ -43,11 +43,8 @@
       efun    := sq | not | conj2 | relu | half | add re im | tab <n> (re im re im)ⁿ re im
 -/
 import Driver.Codec
-<<<<<<< HEAD
 import Model.TensorBubble
-=======
 import Model.TensorNary
->>>>>>> ws3-c08
 
 namespace DV.TensorCmd
 open DV DV.Codec
